@@ -1031,7 +1031,12 @@ def prim (a : List String) : Option Out :=
 def step1 (c : Cfg) (tbl : Tbl) (toks : List String) : Tbl × Out :=
   match toks with
   | "case" :: rest => (({} : Tbl), ⟨"case " ++ " ".intercalate rest, .any⟩)
-  | "new" :: id :: kind :: ctor :: a =>
+  | "new" :: id :: kind :: ctor :: a0 =>
+    -- a trailing `h<lower>:<upper>` says that the harness hands the bits over through an iterator reporting that (legal) size
+    -- hint; the hint is not part of the value
+    let a := match a0.getLast? with
+      | some h => if h.startsWith "h" && (h.drop 1).toString.any (· == ':') && a0.length > 1 then a0.dropLast else a0
+      | none => a0
     (match num? id with
     | none => (tbl, bad "id")
     | some id => match newObj c tbl kind ctor a with
